@@ -158,14 +158,7 @@ def fragment(data, cuts):
 
 # --------------------------------------------------------------------------- implementation run
 
-def run_impl(case):
-    from hio.core import http
-    from hio.core.http import serving
-    from hio.base import tyming
-
-    reqs, apps = case["reqs"], case["apps"]
-    calls = []
-
+def _make_app(apps, calls):
     def app(environ, start_response):
         i = int(environ["PATH_INFO"][2:])
         calls.append(i)
@@ -180,6 +173,102 @@ def run_impl(case):
             for p in pieces:
                 yield p
         return gen()
+    return app
+
+
+def run_loopback(case):
+    """The same case over a real loopback TCP connection (kernel sockets, real accept): returns the bytes the
+    client socket received and whether the server closed."""
+    import select, socket, sys, time
+    from hio.core import http
+    from hio.core.http import serving
+    from hio.base import tyming
+    calls = []
+    app = _make_app(case["apps"], calls)
+    stream = b"".join(render_request(i, r) for i, r in enumerate(case["reqs"]))
+    probe = socket.socket(); probe.bind(("127.0.0.1", 0)); port = probe.getsockname()[1]; probe.close()
+    saved, saved_err = serving.datetime, sys.stderr
+    serving.datetime = _FakeDatetimeModule
+    sys.stderr = io.StringIO()
+    server = cli = None
+    try:
+        tymist = tyming.Tymist(tyme=0.0)
+        server = http.Server(app=app, host="127.0.0.1", port=port)
+        server.wind(tymist.tymen())
+        if not server.reopen():
+            return None
+        cli = socket.socket(); cli.connect(("127.0.0.1", port)); cli.setblocking(False)
+        got, closed, quiet, sent = bytearray(), False, 0, 0
+        deadline = time.time() + 5.0
+        while time.time() < deadline and not closed and quiet < 5:
+            if sent < len(stream):
+                try:
+                    sent += cli.send(stream[sent:sent + 97])
+                except BlockingIOError:
+                    pass
+            server.service()
+            progressed = False
+            try:
+                data = cli.recv(65536)
+                if data == b"":
+                    closed = True
+                else:
+                    got += data; progressed = True
+            except BlockingIOError:
+                pass
+            except ConnectionResetError:
+                closed = True
+            if progressed or sent < len(stream):
+                quiet = 0
+            else:   # Nagle / delayed ACK hold small segments back for tens of ms: wait in real time
+                quiet += 1
+                select.select([cli], [], [], 0.06)
+        return {"out": bytes(got).hex(), "closed": closed, "calls": calls}
+    finally:
+        serving.datetime = saved
+        sys.stderr = saved_err
+        if cli:
+            cli.close()
+        if server:
+            server.close()
+
+
+def extra(tier, ctx):
+    """Real-kernel soak: a sample of cases is replayed over a loopback TCP connection; the byte stream and the
+    close must equal what the fake transport observed (so the fake socket does not distort anything)."""
+    import random
+    rng = random.Random(ctx.seed * 7919 + 18)
+    cases = directed() + [gen_case(rng) for _ in range(10 if tier == "quick" else 90)]
+    n = bad = 0
+    for c in cases:
+        if any(r["body"][0] == "badlen" for r in c["reqs"]):
+            continue   # close on a parse error may race with unsent bytes (see design.d/C18.md)
+        c = {k: v for k, v in c.items() if k not in ("rx", "tx")}
+        fake = run_impl(c)
+        real = run_loopback(c)
+        if real is None:
+            ctx.notes.append("loopback listen socket unavailable; soak skipped")
+            break
+        n += 1
+        if (real["out"], real["closed"], real["calls"]) != (fake["out"], fake["closed"], fake["calls"]):
+            bad += 1
+            if bad <= 2:
+                ctx.violations.append({"kind": "loopback", "case": c,
+                                       "why": "stream/close over a real loopback connection differs from the fake transport run: "
+                                              f"real closed={real['closed']} {len(real['out']) // 2} bytes calls={real['calls']}; "
+                                              f"fake closed={fake['closed']} {len(fake['out']) // 2} bytes calls={fake['calls']}"})
+    return {"loopback_soak_cases": n, "loopback_soak_mismatches": bad}
+
+
+
+def run_impl(case):
+    from hio.core import http
+    from hio.core.http import serving
+    from hio.base import tyming
+
+    reqs, apps = case["reqs"], case["apps"]
+    calls = []
+    app = _make_app(apps, calls)
 
     stream = b"".join(render_request(i, r) for i, r in enumerate(reqs))
     sock = FakeSock(fragment(stream, case.get("rx", [])), case.get("tx", []))
